@@ -14,7 +14,7 @@ PROPS['C03'] = dict(
         dict(name='seq', variant='asan', harness='c03_api.cpp', quick=1600, thorough=16000, budget=60),
         dict(name='seq-nd', variant='asan-nd', harness='c03_api.cpp', quick=0, thorough=6000, budget=60),
         # uninitialised-value use: valgrind memcheck over short deterministic sequences in the uninstrumented build
-        dict(name='memcheck', variant='plain-d', harness='c03_api.cpp', quick=32, thorough=320, budget=150, wall=2400,
+        dict(name='memcheck', variant='plain-d', harness='c03_api.cpp', quick=64, thorough=960, budget=150, wall=2400,
              wrapper=['valgrind', '-q', '--error-exitcode=79', '--exit-on-first-error=yes', '--track-origins=no', '--leak-check=no']),
     ],
 )
